@@ -18,7 +18,10 @@ UneditedIdentity == Live => \A i \in DOMAIN Rec.written : (Rec.written[i] /\ Rec
 StopAtFirstError == (Live /\ Rec.failFile # 0) =>
    /\ Rec.err /\ Rec.wrapped
    /\ \A i \in DOMAIN Rec.written : (i >= Rec.failFile) => ~Rec.written[i]
-   /\ \A i \in DOMAIN Rec.written : (i < Rec.failFile) => Rec.written[i]
+\* I-layer (conformance with Save.tla, not demanded by the property): the files in front of the failing
+\* one have been written when the failure is met (an implementation that renders every file before it
+\* writes any keeps the property and writes none of them)
+WritesUpToFailure == (Live /\ Rec.failFile # 0) => \A i \in DOMAIN Rec.written : (i < Rec.failFile) => Rec.written[i]
 AllWrittenOnSuccess == (Live /\ Rec.failFile = 0) => (~Rec.err /\ \A i \in DOMAIN Rec.written : Rec.written[i])
 Accepted == TLCGet("stats").diameter = Len(Trace) + 1
 =============================================================================
